@@ -3,15 +3,16 @@
 package c07
 
 import (
-	"os"
-	"github.com/mycoria/mycoria/mgr"
 	"encoding/hex"
 	"fmt"
+	"github.com/mycoria/mycoria/mgr"
 	"math/rand/v2"
 	"net/netip"
+	"os"
 	"sort"
 	"strings"
 	"sync"
+	"sync/atomic"
 	"time"
 
 	"github.com/fxamacker/cbor/v2"
@@ -896,6 +897,87 @@ func runScene(res *core.Result, r *rand.Rand, exhaustiveBits bool) {
 	res.Count("scenes_completed", 1)
 }
 
+// concurrentDuplicates: the router's frame handlers run in parallel. A genuine signed ping and exact copies of it
+// are picked up by several workers at the same moment, at a router that knows the sender (stored record) but
+// holds no live session for it (it was idle and the cleaner dropped the session), with the storage lookup slowed
+// down a little (storage access is where workers really wait). Exactly one copy may be handled; every other one
+// is a replay and must be refused like it is when the copies arrive one after the other.
+func concurrentDuplicates(res *core.Result, r *rand.Rand, rounds int) {
+	for round := 0; round < rounds; round++ {
+		ids := []*m.Address{env.NewIdentity(r, nil), env.NewIdentity(r, nil)}
+		ms, err := vmesh.Build(r, vmesh.Line(2), ids, vmesh.BuildOpts{Labels: vmesh.LabelsSmall, Introduce: true})
+		if err != nil {
+			res.Inconcl("concurrent duplicates: %v", err)
+			return
+		}
+		v, x := ms.Nodes[0], ms.Nodes[1]
+		// the victim has been idle towards X for hours: no live session, only the stored record
+		v.Inst.StateV.VerifAdvanceTime(3 * time.Hour)
+		v.Inst.StateV.VerifHousekeeping()
+		if v.Inst.StateV.VerifHasSession(x.ID.IP) {
+			res.Count("concurrent_duplicates_skipped_session_alive", 1)
+			continue
+		}
+		kind := []string{"hello-request", "pong-request"}[round%2]
+		switch kind {
+		case "hello-request":
+			_, err = x.Inst.RouterV.HelloPing.Send(v.ID.IP)
+		default:
+			_, _, err = x.Inst.RouterV.PingPong.Send(v.ID.IP, true, 0)
+		}
+		if err != nil || ms.Pending() != 1 {
+			res.Count("concurrent_duplicates_emit_failed", 1)
+			for ms.Pending() > 0 {
+				ms.Take(0)
+			}
+			continue
+		}
+		P := ms.Take(0).Data
+		var emitted atomic.Int64
+		ms.OnSend = func(p *vmesh.Packet) {
+			if p.From == 0 {
+				emitted.Add(1)
+			}
+		}
+		v.Inst.SlowV.SetGetRouterDelay(time.Duration(5+r.IntN(20)) * time.Millisecond)
+		const copies = 3
+		var okCount atomic.Int64
+		var wg sync.WaitGroup
+		start := make(chan struct{})
+		for g := 0; g < copies; g++ {
+			wg.Add(1)
+			go func() {
+				defer wg.Done()
+				<-start
+				if herr, perr := ms.HandleAtRouter(0, 1, P); herr == nil && perr == nil {
+					okCount.Add(1)
+				}
+			}()
+		}
+		close(start)
+		wg.Wait()
+		v.Inst.SlowV.SetGetRouterDelay(0)
+		wit := map[string]any{"ping": kind, "copies": copies, "case_id": "concurrent-duplicates"}
+		if len(ms.Panics) > 0 {
+			res.Violate("handler-panic", fmt.Sprintf("copies of one %s handled in parallel: %v", kind, ms.Panics[0]), wit)
+			return
+		}
+		if okCount.Load() > 1 {
+			res.Violate("replayed-ping-handled:"+kind+":concurrent-copies", fmt.Sprintf("%d of %d exact copies of one genuine %s, picked up by parallel workers of a router without a live session for the sender, were all handled (the router answered %d time(s)); one after the other, every copy but the first is refused as a replay", okCount.Load(), copies, kind, emitted.Load()), wit)
+			return
+		}
+		if okCount.Load() == 1 {
+			res.Count("concurrent_duplicate_rounds_one_handled", 1)
+		} else {
+			res.Count("concurrent_duplicate_rounds_none_handled", 1)
+		}
+		res.Case("concurrent-duplicates|"+kind, true)
+		for ms.Pending() > 0 {
+			ms.Take(0)
+		}
+	}
+}
+
 func parallel(n int, fn func(w int)) {
 	var wg sync.WaitGroup
 	for w := 0; w < n; w++ {
@@ -915,6 +997,10 @@ func run(c *core.Ctx) {
 			runScene(res, r, c.Tier == core.Thorough && i%4 == 0)
 		}
 	})
+	parallel(4, func(w int) {
+		concurrentDuplicates(res, core.RNG(fmt.Sprintf("c07/concdup/%d", w)), c.Q(4, 40))
+	})
+	res.Require(res.Counter("concurrent_duplicate_rounds_one_handled") >= 4 || res.ViolationCount() > 0, "concurrent duplicate scenario: too few rounds in which one copy was handled")
 	res.Sample(map[string]any{"ping": "hello-request from node 4 (two hops away)", "variants": []string{"bitflip at every byte", "source rewritten to nodes 1,2,3,5", "type switched", "replay-immediate", "replay-on-other-link", "replay-after-newer-frames"}})
 	res.Sample(map[string]any{"ping": "disconnect-going-down from node 1", "positive_control": "only routes whose destination, next hop or path contains node 1 disappear; stored record of node 1 goes offline"})
 	res.Assume("bookkeeping is excluded from the snapshot: existence of a bare stored record for a valid self-certifying identity, UsedAt/activity timestamps, error-ping rate limiter, hello/pong request bookkeeping")
